@@ -184,6 +184,35 @@ func stmtWritesPkgState(pi *pkgInfo, s ast.Stmt) bool {
 	return stmtWrittenRoot(pi, s) != ""
 }
 
+// firstField returns ".f" when e is (rooted at) a selection of field f directly
+// on the package-level struct variable v, "" otherwise.
+func firstField(pi *pkgInfo, e ast.Expr, v *types.Var) string {
+	name := ""
+	for {
+		switch x := e.(type) {
+		case *ast.ParenExpr:
+			e = x.X
+		case *ast.IndexExpr:
+			e = x.X
+		case *ast.SliceExpr:
+			e = x.X
+		case *ast.StarExpr:
+			e = x.X
+		case *ast.UnaryExpr:
+			e = x.X
+		case *ast.SelectorExpr:
+			if id, ok := x.X.(*ast.Ident); ok {
+				if o, ok := pi.info.Uses[id].(*types.Var); ok && o == v {
+					name = "." + x.Sel.Name
+				}
+			}
+			e = x.X
+		default:
+			return name
+		}
+	}
+}
+
 func isBasic(t types.Type) bool {
 	if t == nil {
 		return false
@@ -202,6 +231,27 @@ func stmtWrittenRoot(pi *pkgInfo, s ast.Stmt) string {
 	root := ""
 	w := false
 	atomicArg := map[*ast.UnaryExpr]bool{}
+	// calls that sit in the condition of an if / for / switch are predicates
+	inCond := map[*ast.CallExpr]bool{}
+	markCond := func(e ast.Expr) {
+		if e == nil {
+			return
+		}
+		ast.Inspect(e, func(n ast.Node) bool {
+			if c, ok := n.(*ast.CallExpr); ok {
+				inCond[c] = true
+			}
+			return true
+		})
+	}
+	switch st := s.(type) {
+	case *ast.IfStmt:
+		markCond(st.Cond)
+	case *ast.ForStmt:
+		markCond(st.Cond)
+	case *ast.SwitchStmt:
+		markCond(st.Tag)
+	}
 	exprType := func(e ast.Expr) types.Type {
 		if tv, ok := pi.info.Types[e]; ok {
 			return tv.Type
@@ -219,7 +269,7 @@ func stmtWrittenRoot(pi *pkgInfo, s ast.Stmt) string {
 			}
 			w = true
 			if root == "" {
-				root = pi.name + "." + v.Name()
+				root = pi.name + "." + v.Name() + firstField(pi, e, v)
 			}
 		}
 	}
@@ -255,7 +305,7 @@ func stmtWrittenRoot(pi *pkgInfo, s ast.Stmt) string {
 							if v := rootVar(pi, sel.X); v != nil {
 								w = true
 								if root == "" {
-									root = pi.name + "." + v.Name()
+									root = pi.name + "." + v.Name() + firstField(pi, sel.X, v)
 								}
 							}
 						}
@@ -271,10 +321,11 @@ func stmtWrittenRoot(pi *pkgInfo, s ast.Stmt) string {
 						}
 					}
 				}
-				if s := pi.info.Selections[sel]; s != nil && s.Kind() == types.MethodVal {
+				if s := pi.info.Selections[sel]; s != nil && s.Kind() == types.MethodVal && !inCond[x] {
 					if fn, ok := s.Obj().(*types.Func); ok {
 						sig := fn.Type().(*types.Signature)
-						if sig.Recv() != nil {
+						fromSync := fn.Pkg() != nil && (fn.Pkg().Path() == "sync" || fn.Pkg().Path() == "sync/atomic")
+						if sig.Recv() != nil && !fromSync {
 							if _, ptr := sig.Recv().Type().(*types.Pointer); ptr {
 								check(sel.X)
 							}
@@ -726,6 +777,15 @@ func main() {
 	fieldPI := load(filepath.Join(*repo, "field"), tagList, std, fieldPath)
 	mainPI := load(*repo, tagList, &mapImporter{std: std, extra: map[string]*types.Package{fieldPath: fieldPI.pkg}}, "filippo.io/edwards25519")
 
+	// packages of the same module other than the two instrumented ones would run
+	// uninstrumented (their sync primitives ungated): not supported
+	for _, pi := range []*pkgInfo{fieldPI, mainPI} {
+		for _, imp := range pi.pkg.Imports() {
+			if strings.HasPrefix(imp.Path(), "filippo.io/edwards25519/") && imp.Path() != fieldPath {
+				unsupported = append(unsupported, fmt.Sprintf("package %s imports %s, which the instrumenter does not cover", pi.name, imp.Path()))
+			}
+		}
+	}
 	replace := map[string]string{}
 	for _, pi := range []*pkgInfo{fieldPI, mainPI} {
 		for i, f := range pi.files {
@@ -830,6 +890,16 @@ func VerifPkgState() []byte {
 	sb.WriteString("// VerifPkgVarStates returns the rendering of each package-level variable separately.\nfunc VerifPkgVarStates() map[string][]byte {\n\tm := map[string][]byte{}\n")
 	for _, v := range pkgVars(pi) {
 		fmt.Fprintf(&sb, "\tm[%q] = verifDeep(nil, reflect.ValueOf(&%s).Elem(), 0)\n", pi.name+"."+v.Name(), v.Name())
+		// struct variables also field by field (a table and a hit counter may share a struct)
+		if st, ok := v.Type().Underlying().(*types.Struct); ok {
+			for i := 0; i < st.NumFields(); i++ {
+				f := st.Field(i)
+				if f.Name() == "_" || !(f.Exported() || f.Pkg() == pi.pkg) {
+					continue
+				}
+				fmt.Fprintf(&sb, "\tm[%q] = verifDeep(nil, reflect.ValueOf(&%s.%s).Elem(), 0)\n", pi.name+"."+v.Name()+"."+f.Name(), v.Name(), f.Name())
+			}
+		}
 	}
 	sb.WriteString("\treturn m\n}\n\n")
 	sb.WriteString("// VerifPkgTruncations counts places where the rendering gave up (depth limit).\nvar VerifPkgTruncations int\n\n")
